@@ -1,8 +1,9 @@
 (* Extraction of the executable model: ExtrOcamlBasic only, no Extract Constant of our own. *)
-Require Import Policy Structure Keys Wire.
+From CC Require Import Policy Structure Keys KeysMachine Wire.
 Require Extraction.
 Require Import ExtrOcamlBasic.
 Extraction "../ocaml/model.ml" parse parse_dnf empty_structure add_anarchy add_hierarchy del_dimension add_attribute
   del_attribute disable_attribute rename_attribute omega complementary_rights associated_rights right_bytes
-  update_msk mk_mpk usk_rights enc_rights rekey prune keygen refresh encaps_rights decaps recaps full_decaps.
+  update_msk mk_mpk usk_rights enc_rights rekey prune keygen refresh encaps_rights decaps recaps full_decaps
+  step run init fixed pinned.
 Extraction "../ocaml/wire.ml" default_sizes r_msk r_mpk r_usk r_xenc r_structure whole.
